@@ -156,8 +156,10 @@ static inline int sline_putchar(struct sline *sl, char c)
 
 static inline int sline_newdata(struct sline *sl, const char *data, int len)
 {
-    if (len > sline_avail(sl))
-        len = sline_avail(sl);
+    // one byte is reserved for the terminator written by sline_getline
+    // (same limit as sline_putchar: len <= cap - 1)
+    if (len > sline_avail(sl) - 1)
+        len = sline_avail(sl) - 1;
 
     if (sl->cursor != sl->len)
     {
